@@ -314,7 +314,13 @@ def build_stages(ctx):
         tb = np.sqrt(1 - 1 / g ** 2)
         if n >= 4:
             tb[2] = np.nan      # what the tau stage hands on for an above-table angle at the lowest energies (energy below the rest mass)
-        return {"beta": rng.uniform(0.0, 0.73, n), "tb": tb, "g": g, "u": rng.uniform(1e-6, 1.0, n)}
+        u = rng.uniform(1e-6, 1.0, n)
+        if n >= 4:
+            # the closed ends of the deviate's range (the first point of an unscrambled low-discrepancy sequence or of a linspace
+            # scan is exactly 0): what such an event gets must not depend on its companions either
+            u[int(rng.integers(0, n))] = 0.0
+            u[int(rng.integers(0, n))] = 1.0
+        return {"beta": rng.uniform(0.0, 0.73, n), "tb": tb, "g": g, "u": u}
     stages.append(Stage("EAS.altDec", a_make, lambda inp: eas.altDec(inp["beta"], inp["tb"], inp["g"], inp["u"])))
     # ---- optical signal (real Cherenkov kernel: expensive)
 
